@@ -209,8 +209,22 @@ func init() {
 		}
 
 		phases, evict := cnCleanSkeleton(findFunc(f, "dirCache", "clean"))
+		storeBody, storeFilesBody := cnStoreSkeleton(findFunc(f, "dirCache", "Store"), findFunc(f, "dirCache", "storeFiles"))
 
 		return genHeader +
+			"(* Store: its statements in source order (the two path computations left out):\n" +
+			"   StMarkEarly        cache.markDir(cacheDir, 0)\n" +
+			"   StRemoveOld        if fs.RemoveAll(cacheDir) fails { log; return }\n" +
+			"   StStoreFiles       cache.storeFiles(target, key, \"\", cacheDir, tmpDir, files, true)\n" +
+			"   StRenameIntoPlace  if os.Rename(tmpDir, cacheDir) fails other than with not-exist { log } *)\n" +
+			"Inductive store_step := StMarkEarly | StRemoveOld | StStoreFiles | StRenameIntoPlace.\n" +
+			"Definition store_body : list store_step := [" + strings.Join(storeBody, "; ") + "].\n" +
+			"(* storeFiles: its statements in source order (the declaration of totalSize left out):\n" +
+			"   SfStoreEach   if cache.Compress { totalSize = cache.storeCompressed(target, tmpDir, files) }\n" +
+			"                 else { for _, out := range files { totalSize += cache.storeFile(target, out, tmpDir) } }\n" +
+			"   SfMarkTotal   cache.markDir(cacheDir, totalSize) *)\n" +
+			"Inductive store_files_step := SfStoreEach | SfMarkTotal.\n" +
+			"Definition store_files_body : list store_files_step := [" + strings.Join(storeFilesBody, "; ") + "].\n" +
 			"(* clean: its phases in source order (declarations and logging left out) *)\n" +
 			"Inductive clean_phase := PhWalk | PhReturnBelowHigh | PhSort | PhEvict | PhReturnTotal.\n" +
 			"Definition clean_phases : list clean_phase := [" + strings.Join(phases, "; ") + "].\n" +
@@ -336,6 +350,69 @@ func cnCleanSkeleton(fd *ast.FuncDecl) (phases, evict []string) {
 		}
 	}
 	return phases, evict
+}
+
+// cnStoreSkeleton translates the statement lists of dirCache.Store and dirCache.storeFiles.  Every
+// statement must be one of the recognised shapes (fail closed); a recognised statement that is
+// absent is absent from the emitted list, so the model interprets the Store that is in the source
+// and the proofs about it (Proof/C14_Store.v) no longer check.
+func cnStoreSkeleton(store, storeFiles *ast.FuncDecl) (sb, sfb []string) {
+	if got := cnNode(store.Type); got != "func(target *core.BuildTarget, key []byte, files []string)" {
+		failShape("Store: parameters are %s", got)
+	}
+	for _, st := range store.Body.List {
+		switch s := cnNode(st); {
+		case s == `cacheDir := cache.getPath(target, key, "")`:
+		case strings.HasPrefix(s, `tmpDir := cache.getFullPath(target, key, "", "`):
+		case s == "cache.markDir(cacheDir, 0)":
+			sb = append(sb, "StMarkEarly")
+		case s == `cache.storeFiles(target, key, "", cacheDir, tmpDir, files, true)`:
+			sb = append(sb, "StStoreFiles")
+		default:
+			is, ok := st.(*ast.IfStmt)
+			if !ok || is.Init == nil || is.Else != nil {
+				failShape("Store: unexpected statement %s", s)
+			}
+			switch init, cond := cnNode(is.Init), cnExpr(is.Cond); {
+			case init == "err := fs.RemoveAll(cacheDir)" && cond == "err != nil" && cnEndsWith(is.Body, "return"):
+				sb = append(sb, "StRemoveOld")
+			case init == "err := os.Rename(tmpDir, cacheDir)" && cond == "err != nil && !os.IsNotExist(err)" && cnOnlyLogs(is.Body):
+				sb = append(sb, "StRenameIntoPlace")
+			default:
+				failShape("Store: unexpected if statement `if %s; %s`", init, cond)
+			}
+		}
+	}
+	if got := cnNode(storeFiles.Type); got != "func(target *core.BuildTarget, key []byte, suffix, cacheDir, tmpDir string, files []string, clean bool)" {
+		failShape("storeFiles: parameters are %s", got)
+	}
+	for _, st := range storeFiles.Body.List {
+		switch s := cnNode(st); {
+		case s == "var totalSize uint64":
+		case s == "cache.markDir(cacheDir, totalSize)":
+			sfb = append(sfb, "SfMarkTotal")
+		case s == "if cache.Compress { totalSize = cache.storeCompressed(target, tmpDir, files) } else { for _, out := range files { totalSize += cache.storeFile(target, out, tmpDir) } }":
+			sfb = append(sfb, "SfStoreEach")
+		default:
+			failShape("storeFiles: unexpected statement %s", s)
+		}
+	}
+	return sb, sfb
+}
+
+// cnOnlyLogs: the block consists of log calls only.
+func cnOnlyLogs(b *ast.BlockStmt) bool {
+	for _, st := range b.List {
+		es, ok := st.(*ast.ExprStmt)
+		if !ok {
+			return false
+		}
+		call, ok := es.X.(*ast.CallExpr)
+		if !ok || !strings.HasPrefix(cnExpr(call.Fun), "log.") {
+			return false
+		}
+	}
+	return len(b.List) > 0
 }
 
 // cnEndsWith: the block consists of log calls followed by the given last statement.
